@@ -15,16 +15,16 @@ def reqDry (r : Json) : Bool :=
   | .arr a => (match a[2]! with | .bool b => b | _ => false)
   | _ => false
 
-theorem apisvc_client_dry_sends_nothing (ssa se ex : Bool) :
-    (expected 1 ssa se ex).1 = [] ∧ (expected 1 ssa se ex).2.2 = false := by
+theorem apisvc_client_dry_sends_nothing (ssa se ex rf : Bool) :
+    (expected 1 ssa se ex rf).1 = [] ∧ (expected 1 ssa se ex rf).2.2 = false := by
   simp [expected]
 
-theorem apisvc_dry_only_flagged (dry : Nat) (ssa se ex : Bool) (h : dry ≠ 0) :
-    (expected dry ssa se ex).1.all reqDry = true ∧ (expected dry ssa se ex).2.2 = false := by
+theorem apisvc_dry_only_flagged (dry : Nat) (ssa se ex rf : Bool) (h : dry ≠ 0) :
+    (expected dry ssa se ex rf).1.all reqDry = true ∧ (expected dry ssa se ex rf).2.2 = false := by
   match dry, h with
   | 1, _ => simp [expected]
   | n + 2, _ =>
-    cases ssa <;> cases se <;> simp [expected, reqDry, req]
+    cases ssa <;> cases se <;> cases rf <;> simp [expected, reqDry, req]
 
 /-- non-vacuity: the server dry-run row with a stream error under SSA really retries (two flagged requests) -/
 example : ((expected 2 true true false).1.length = 2) := by simp [expected]
